@@ -297,7 +297,8 @@ Lemma tick_spec f c now c' o d ret : tick f c now = (c', o, d, ret) ->
   count_inflight (c_q c') <= count_inflight (c_q c) /\
   (1 <= f_maxr f -> att_ok (f_maxr f) (c_q c) -> att_ok (f_maxr f) (c_q c')) /\
   (o = [] -> c_zlb c' = c_zlb c) /\
-  (d = true -> c_q c' = []).
+  (d = true -> c_q c' = []) /\
+  (d = false -> map key (c_q c') = map key (c_q c)).
 Proof.
   unfold tick.
   destruct (tick_q f now (c_nr c) (c_cwnd c) (c_ssth c) (c_q c)) as [[[oq cw] ss] o1] eqn:E.
@@ -310,7 +311,7 @@ Proof.
       intros pk [<-|[]]. simpl. split; [reflexivity|discriminate].
     + intros Ho. apply app_eq_nil in Ho as [_ Ho].
       destruct (c_zlb c) as [dl|]; [|reflexivity]. destruct (negb (now <? dl)); [discriminate|reflexivity].
-  - splits; auto; try lia; try (simpl; apply count_inflight_nonneg); try (intros _ _ ? []).
+  - splits; auto; try lia; try (simpl; apply count_inflight_nonneg); try (intros _ _ ? []); try discriminate.
 Qed.
 
 Lemma set_peer_window_spec c rws : let c' := set_peer_window c rws in
@@ -368,7 +369,10 @@ Record dir_inv (o : Z) (S R : endpoint) : Prop := {
              In (k_ns pk, b) (stamped o 0 (e_sub S));
   di_sentR : forall pk, In pk (e_sent R) ->
              exists k, (k <= length (e_del R))%nat /\ k_nr pk = u16 (o + Z.of_nat k);
-  di_acked : forall i, In i (e_acked S) -> (i < length (e_del R))%nat }.
+  di_acked : forall i, In i (e_acked S) -> (i < length (e_del R))%nat;
+  (* as long as S never declared dead, everything that left its queue was handed to R's machine *)
+  di_base : e_dead S = 0%nat ->
+            (length (e_sub S) - length (c_q (e_ch S)) <= length (e_del R))%nat }.
 
 Ltac ep_simpl := cbn [e_f e_ch e_sent e_sub e_del e_acked e_dead e_wmax] in *.
 
@@ -376,7 +380,7 @@ Ltac ep_simpl := cbn [e_f e_ch e_sent e_sub e_del e_acked e_dead e_wmax] in *.
 Lemma submit_sender o S R body sid now S' ob :
   dir_inv o S R -> ep_submit S body sid now = (S', ob) -> dir_inv o S' R.
 Proof.
-  intros [Hns [pre Hq] Hnr [rest Hp] HsS HsR Hack] H. unfold ep_submit in H.
+  intros [Hns [pre Hq] Hnr [rest Hp] HsS HsR Hack Hbase] H. unfold ep_submit in H.
   destruct (send_session (e_f S) (e_ch S) body sid now) as [c' o'] eqn:E.
   inversion H; subst; clear H.
   apply send_session_spec in E. destruct E as (A & B & _ & _ & K & Em & _).
@@ -392,12 +396,16 @@ Proof.
     + rewrite Hst, K. apply in_or_app; right. destruct (Em pk Hin) as [_ Y]. auto.
   - exact HsR.
   - exact Hack.
+  - intros Hd. specialize (Hbase Hd).
+    assert (length (c_q c') = (length (c_q (e_ch S)) + 1)%nat).
+    { rewrite <- (map_length key), K, app_length, map_length. simpl. lia. }
+    rewrite app_length. simpl. lia.
 Qed.
 
 Lemma submit_receiver o S R body sid now R' ob :
   dir_inv o S R -> ep_submit R body sid now = (R', ob) -> dir_inv o S R'.
 Proof.
-  intros [Hns Hq Hnr Hp HsS HsR Hack] H. unfold ep_submit in H.
+  intros [Hns Hq Hnr Hp HsS HsR Hack Hbase] H. unfold ep_submit in H.
   destruct (send_session (e_f R) (e_ch R) body sid now) as [c' o'] eqn:E.
   inversion H; subst; clear H.
   apply send_session_spec in E. destruct E as (_ & B & _ & _ & _ & Em & _).
@@ -411,10 +419,10 @@ Qed.
 Lemma tick_sender o S R now S' ob :
   dir_inv o S R -> ep_tick S now = (S', ob) -> dir_inv o S' R.
 Proof.
-  intros [Hns [pre Hq] Hnr Hp HsS HsR Hack] H. unfold ep_tick in H.
+  intros [Hns [pre Hq] Hnr Hp HsS HsR Hack Hbase] H. unfold ep_tick in H.
   destruct (tick (e_f S) (e_ch S) now) as [[[c' o'] d] ret] eqn:E.
   inversion H; subst; clear H.
-  apply tick_spec in E. destruct E as (A & B & _ & K & Em & _).
+  apply tick_spec in E. destruct E as (A & B & _ & K & Em & _ & _ & _ & _ & _ & Kf).
   constructor; ep_simpl; auto.
   - rewrite A; exact Hns.
   - destruct K as [K|K].
@@ -422,12 +430,16 @@ Proof.
     + exists (stamped o 0 (e_sub S)). rewrite K. simpl. rewrite app_nil_r. reflexivity.
   - intros pk b Hin Hb. apply in_app_or in Hin as [Hin|Hin]; [eauto|].
     rewrite Hq. apply in_or_app; right. destruct (Em pk Hin) as [_ Y]. auto.
+  - destruct d; [discriminate|]. intros Hd. specialize (Hbase Hd).
+    assert (length (c_q c') = length (c_q (e_ch S))).
+    { rewrite <- (map_length key), (Kf eq_refl), map_length. reflexivity. }
+    lia.
 Qed.
 
 Lemma tick_receiver o S R now R' ob :
   dir_inv o S R -> ep_tick R now = (R', ob) -> dir_inv o S R'.
 Proof.
-  intros [Hns Hq Hnr Hp HsS HsR Hack] H. unfold ep_tick in H.
+  intros [Hns Hq Hnr Hp HsS HsR Hack Hbase] H. unfold ep_tick in H.
   destruct (tick (e_f R) (e_ch R) now) as [[[c' o'] d] ret] eqn:E.
   inversion H; subst; clear H.
   apply tick_spec in E. destruct E as (_ & B & _ & _ & Em & _).
@@ -441,14 +453,14 @@ Qed.
 Lemma setwin_sender o S R rws S' ob :
   dir_inv o S R -> ep_setwin S rws = (S', ob) -> dir_inv o S' R.
 Proof.
-  intros [Hns Hq Hnr Hp HsS HsR Hack] H. unfold ep_setwin in H. inversion H; subst; clear H.
+  intros [Hns Hq Hnr Hp HsS HsR Hack Hbase] H. unfold ep_setwin in H. inversion H; subst; clear H.
   constructor; ep_simpl; auto.
 Qed.
 
 Lemma setwin_receiver o S R rws R' ob :
   dir_inv o S R -> ep_setwin R rws = (R', ob) -> dir_inv o S R'.
 Proof.
-  intros [Hns Hq Hnr Hp HsS HsR Hack] H. unfold ep_setwin in H. inversion H; subst; clear H.
+  intros [Hns Hq Hnr Hp HsS HsR Hack Hbase] H. unfold ep_setwin in H. inversion H; subst; clear H.
   constructor; ep_simpl; auto.
 Qed.
 
@@ -474,24 +486,19 @@ Lemma deliver_sender o S R pk now S' ob :
   dir_inv o S R -> In pk (e_sent R) -> Z.of_nat (length (e_sub S)) < 32768 ->
   ep_deliver false S pk now = (S', ob) -> dir_inv o S' R.
 Proof.
-  intros [Hns [pre Hq] Hnr [rest Hp] HsS HsR Hack] Hpk Hb H. unfold ep_deliver in H.
+  intros [Hns [pre Hq] Hnr [rest Hp] HsS HsR Hack Hbase] Hpk Hb H. unfold ep_deliver in H.
   destruct (dispatch false (e_f S) (e_ch S) pk now) as [[c' o'] h] eqn:E.
   inversion H; subst; clear H.
   apply dispatch_repaired_spec in E. destruct E as (A & (popped & rst & Q1 & Q2 & Q3) & Em & _).
-  constructor; ep_simpl; auto.
-  - rewrite A; exact Hns.
-  - exists (pre ++ map key popped). rewrite Hq, Q1, map_app, Q2, app_assoc. reflexivity.
-  - exists rest; exact Hp.
-  - intros p b Hin Hbody. apply in_app_or in Hin as [Hin|Hin]; [eauto|].
-    rewrite Hq. apply in_or_app; right. destruct (Em p Hin) as [_ Y]. auto.
-  - intros i Hin. apply in_app_or in Hin as [Hin|Hin]; [auto|].
-    unfold acked_range in Hin. apply in_seq in Hin.
-    assert (Hl : length (c_q c') = length rst).
-    { rewrite <- (map_length key), Q2, map_length; reflexivity. }
-    assert (Hlq : length (c_q (e_ch S)) = (length popped + length rst)%nat).
-    { rewrite Q1, app_length; reflexivity. }
-    assert (Hlp : length (e_sub S) = (length pre + length (c_q (e_ch S)))%nat).
-    { rewrite <- (stamped_length o (e_sub S) 0), Hq, app_length, map_length; reflexivity. }
+  assert (Hl : length (c_q c') = length rst).
+  { rewrite <- (map_length key), Q2, map_length; reflexivity. }
+  assert (Hlq : length (c_q (e_ch S)) = (length popped + length rst)%nat).
+  { rewrite Q1, app_length; reflexivity. }
+  assert (Hlp : length (e_sub S) = (length pre + length (c_q (e_ch S)))%nat).
+  { rewrite <- (stamped_length o (e_sub S) 0), Hq, app_length, map_length; reflexivity. }
+  (* every index popped by this acknowledgement had been handed over *)
+  assert (Hnew : forall i, (length pre <= i < length pre + length popped)%nat -> (i < length (e_del R))%nat).
+  { intros i Hi.
     set (j := (i - length pre)%nat).
     assert (Hj : (j < length popped)%nat) by (unfold j; lia).
     destruct (nth_error popped j) as [x|] eqn:Ex; [|apply nth_error_None in Ex; lia].
@@ -505,14 +512,26 @@ Proof.
     assert (Hdel : (length (e_del R) <= length (e_sub S))%nat).
     { rewrite Hp, app_length; lia. }
     rewrite Hfst, Hknr, seq_less_window in Hless by lia.
-    unfold j in *. lia.
+    unfold j in *. lia. }
+  constructor; ep_simpl; auto.
+  - rewrite A; exact Hns.
+  - exists (pre ++ map key popped). rewrite Hq, Q1, map_app, Q2, app_assoc. reflexivity.
+  - exists rest; exact Hp.
+  - intros p b Hin Hbody. apply in_app_or in Hin as [Hin|Hin]; [eauto|].
+    rewrite Hq. apply in_or_app; right. destruct (Em p Hin) as [_ Y]. auto.
+  - intros i Hin. apply in_app_or in Hin as [Hin|Hin]; [auto|].
+    unfold acked_range in Hin. apply in_seq in Hin. apply Hnew. lia.
+  - intros Hd. specialize (Hbase Hd).
+    destruct popped as [|x0 pp]; [simpl in *; lia|].
+    assert ((length pre + length (x0 :: pp) - 1 < length (e_del R))%nat) by (apply Hnew; simpl; lia).
+    simpl in *. lia.
 Qed.
 
 Lemma deliver_receiver o S R pk now R' ob :
   dir_inv o S R -> In pk (e_sent S) -> Z.of_nat (length (e_sub S)) < 32768 ->
   ep_deliver false R pk now = (R', ob) -> dir_inv o S R'.
 Proof.
-  intros [Hns Hq Hnr [rest Hp] HsS HsR Hack] Hpk Hb H. unfold ep_deliver in H.
+  intros [Hns Hq Hnr [rest Hp] HsS HsR Hack Hbase] Hpk Hb H. unfold ep_deliver in H.
   destruct (dispatch false (e_f R) (e_ch R) pk now) as [[c' o'] h] eqn:E.
   inversion H; subst; clear H.
   apply dispatch_repaired_spec in E. destruct E as (_ & _ & Em & Hbody).
@@ -547,6 +566,7 @@ Proof.
     + destruct (Em p Hin) as [X _]. exists (length (e_del R)). split; [lia|].
       rewrite X; exact Hnr.
   - intros i Hin. specialize (Hack i Hin). lia.
+  - intros Hd. specialize (Hbase Hd). lia.
 Qed.
 
 (* ---- the pair ---- *)
@@ -1130,3 +1150,209 @@ Lemma full_example :
   let n0 := mkN true (new_endpoint 120 240 5 60 16 0 0) in
   map (fun p => (k_body p, k_nr p)) (e_sent (n_ep (node_run n0 full_msgs))) = [(None, 1); (None, 1)].
 Proof. vm_compute. reflexivity. Qed.
+
+(* ================= delivered, still queued, or dead ================= *)
+Lemma prefix_full {A} (l d rest : list A) : l = d ++ rest -> (length l <= length d)%nat -> d = l.
+Proof.
+  intros H L. subst l. rewrite app_length in L. destruct rest; [rewrite app_nil_r; reflexivity|simpl in L; lia].
+Qed.
+
+(* For every execution (repaired rule, no forged packets, < 2^15 submissions per direction) and every
+   submission index i of a side: the message was handed to the peer's protocol machine, or it is still in
+   the sender's queue (its last |c_q| submissions), or the sender has fired its dead callback. *)
+Lemma delivered_queued_or_dead ai am ar az aw bi bm br bz bw oa ob evs :
+  honest evs = true ->
+  let s := run false (init_sys (ai, am, ar, az, aw) (bi, bm, br, bz, bw) oa ob) evs in
+  Z.of_nat (length (e_sub (s_a s))) < 32768 -> Z.of_nat (length (e_sub (s_b s))) < 32768 ->
+  forall x i, (i < length (e_sub (ep s x)))%nat ->
+    (i < length (e_del (ep s (peer x))))%nat \/
+    (length (e_sub (ep s x)) - length (c_q (e_ch (ep s x))) <= i)%nat \/
+    (0 < e_dead (ep s x))%nat.
+Proof.
+  intros Hh s BA BB x i Hi.
+  assert (I : sys_inv oa ob s).
+  { apply run_inv; [apply init_inv|exact Hh|split; assumption]. }
+  destruct I as [IA IB].
+  destruct (Nat.eq_dec (e_dead (ep s x)) 0) as [Hd|Hd]; [|right; right; lia].
+  destruct x; simpl in *.
+  - pose proof (di_base _ _ _ IA Hd). lia.
+  - pose proof (di_base _ _ _ IB Hd). lia.
+Qed.
+
+(* when a sender's queue is empty and it never declared dead, the peer's machine has received exactly
+   its submissions: everything, once, in order *)
+Lemma quiescent_all_delivered ai am ar az aw bi bm br bz bw oa ob evs :
+  honest evs = true ->
+  let s := run false (init_sys (ai, am, ar, az, aw) (bi, bm, br, bz, bw) oa ob) evs in
+  Z.of_nat (length (e_sub (s_a s))) < 32768 -> Z.of_nat (length (e_sub (s_b s))) < 32768 ->
+  forall x, c_q (e_ch (ep s x)) = [] -> e_dead (ep s x) = 0%nat ->
+  e_del (ep s (peer x)) = e_sub (ep s x).
+Proof.
+  intros Hh s BA BB x Hq Hd.
+  assert (I : sys_inv oa ob s).
+  { apply run_inv; [apply init_inv|exact Hh|split; assumption]. }
+  destruct I as [IA IB].
+  destruct x; simpl in *.
+  - pose proof (di_base _ _ _ IA Hd) as Hb. rewrite Hq in Hb. simpl in Hb.
+    destruct (di_prefix _ _ _ IA) as [rest Hp]. eapply prefix_full; [exact Hp|lia].
+  - pose proof (di_base _ _ _ IB Hd) as Hb. rewrite Hq in Hb. simpl in Hb.
+    destruct (di_prefix _ _ _ IB) as [rest Hp]. eapply prefix_full; [exact Hp|lia].
+Qed.
+
+(* ---- the two progress steps of the fair-loss argument ---- *)
+(* (1) if ANY ONE transmission of the message at the head of S's queue reaches R, that message has been
+       handed to R's machine (now or earlier) *)
+Lemma head_delivery_progress o S R p r pk b now R' ob :
+  dir_inv o S R -> Z.of_nat (length (e_sub S)) < 32768 -> e_dead S = 0%nat ->
+  c_q (e_ch S) = p :: r -> k_body pk = Some b -> k_ns pk = p_ns p ->
+  ep_deliver false R pk now = (R', ob) ->
+  (length (e_sub S) - length (c_q (e_ch S)) < length (e_del R'))%nat.
+Proof.
+  intros I Hb Hd Hq Hbody Hns H.
+  pose proof (di_base _ _ _ I Hd) as Hbase.
+  destruct I as [_ [pre Hst] Hnr [rest Hp] _ _ _ _].
+  assert (Hlp : length (e_sub S) = (length pre + length (c_q (e_ch S)))%nat).
+  { rewrite <- (stamped_length o (e_sub S) 0), Hst, app_length, map_length; reflexivity. }
+  assert (Hhead : p_ns p = u16 (o + Z.of_nat (length pre))).
+  { assert (N : nth_error (stamped o 0 (e_sub S)) (length pre) = Some (key p)).
+    { rewrite Hst, nth_error_app2, Nat.sub_diag, Hq by lia. reflexivity. }
+    apply stamped_nth in N. destruct N as [N _]. exact N. }
+  unfold ep_deliver in H.
+  destruct (dispatch false (e_f R) (e_ch R) pk now) as [[c' o'] h] eqn:E.
+  inversion H; subst; clear H. ep_simpl.
+  apply dispatch_repaired_spec in E. destruct E as (_ & _ & _ & Hx). rewrite Hbody in Hx |- *.
+  destruct Hx as [Hh _].
+  assert (Hcase : (length pre < length (e_del R))%nat \/ length pre = length (e_del R)) by lia.
+  destruct Hcase as [Hlt|Heq].
+  - destruct h; [rewrite app_length; simpl|]; lia.
+  - assert (h = true) as ->.
+    { rewrite Hh, Hns, Hhead, Hnr, Heq. apply Z.eqb_refl. }
+    rewrite app_length. simpl. lia.
+Qed.
+
+(* (2) once it has been handed over, ANY ONE packet R sends from then on (all carry R's current Nr) that
+       reaches S removes the message from S's queue *)
+Lemma head_ack_progress o S R p r pk now S' ob :
+  dir_inv o S R -> Z.of_nat (length (e_sub S)) < 32768 ->
+  c_q (e_ch S) = p :: r -> 0 < p_att p ->
+  (length (e_sub S) - length (c_q (e_ch S)) < length (e_del R))%nat ->
+  k_nr pk = c_nr (e_ch R) ->
+  ep_deliver false S pk now = (S', ob) ->
+  (length (c_q (e_ch S')) < length (c_q (e_ch S)))%nat.
+Proof.
+  intros I Hb Hq Ha Hlt Hnr H.
+  destruct I as [_ [pre Hst] HnrR [rest Hp] _ _ _ _].
+  assert (Hlp : length (e_sub S) = (length pre + length (c_q (e_ch S)))%nat).
+  { rewrite <- (stamped_length o (e_sub S) 0), Hst, app_length, map_length; reflexivity. }
+  assert (Hhead : p_ns p = u16 (o + Z.of_nat (length pre))).
+  { assert (N : nth_error (stamped o 0 (e_sub S)) (length pre) = Some (key p)).
+    { rewrite Hst, nth_error_app2, Nat.sub_diag, Hq by lia. reflexivity. }
+    apply stamped_nth in N. destruct N as [N _]. exact N. }
+  assert (Hdel : (length (e_del R) <= length (e_sub S))%nat) by (rewrite Hp, app_length; lia).
+  assert (Hless : seq_less (p_ns p) (k_nr pk) = true).
+  { rewrite Hhead, Hnr, HnrR, seq_less_window by lia. lia. }
+  unfold ep_deliver in H.
+  destruct (dispatch false (e_f S) (e_ch S) pk now) as [[c' o'] h] eqn:E.
+  inversion H; subst; clear H. ep_simpl.
+  assert (G : forall f c1 o1, ack_through f (e_ch S) (k_nr pk) now = (c1, o1) ->
+              (length (c_q c1) < length (c_q (e_ch S)))%nat).
+  { intros f c1 o1 E1. unfold ack_through in E1. rewrite Hq in E1 |- *. cbn [ack_q] in E1.
+    assert (p_att p =? 0 = false) as Hz by lia. rewrite Hz, Hless in E1.
+    match type of E1 with context [ack_q ?a ?cw ?ss ?pw r] =>
+      destruct (ack_q a cw ss pw r) as [[q1 cw1] pr1] eqn:E2 end.
+    destruct (ack_q_spec _ _ _ _ _ _ _ _ E2) as (pp & Hr & _).
+    apply drive_send_spec in E1. cbn [c_q] in E1. destruct E1 as (_ & _ & _ & _ & _ & K & _).
+    assert (length (c_q c1) = length q1) by (rewrite <- (map_length key), K, map_length; reflexivity).
+    cbn [length]. rewrite Hr, app_length. lia. }
+  unfold dispatch in E. destruct (k_body pk).
+  - unfold recv in E. destruct (ack_through (e_f S) (e_ch S) (k_nr pk) now) as [c1 o1] eqn:E1.
+    pose proof (G _ _ _ E1). destruct (negb (k_ns pk =? c_nr c1)); inversion E; subst; cbn [c_q]; assumption.
+  - destruct (ack_through (e_f S) (e_ch S) (k_nr pk) now) as [c1 o1] eqn:E1.
+    pose proof (G _ _ _ E1). inversion E; subst. assumption.
+Qed.
+
+(* ================= the advertised window ================= *)
+Record win_ok (W : Z) (e : endpoint) : Prop := {
+  wo_ok : ep_ok e; wo_wmax : e_wmax e = W; wo_pw : c_pw (e_ch e) = W }.
+
+Lemma submit_win W e body sid now : win_ok W e -> win_ok W (fst (ep_submit e body sid now)).
+Proof.
+  intros [O M P]. constructor; [apply submit_ok; exact O| |]; unfold ep_submit;
+    destruct (send_session (e_f e) (e_ch e) body sid now) as [c' o] eqn:E; cbn [fst]; ep_simpl; auto.
+  apply send_session_spec in E. destruct E as (_ & _ & Pw & _). congruence.
+Qed.
+
+Lemma deliver_win z W e p now : win_ok W e -> win_ok W (fst (ep_deliver z e p now)).
+Proof.
+  intros [O M P]. constructor; [apply deliver_ok; exact O| |]; unfold ep_deliver;
+    destruct (dispatch z (e_f e) (e_ch e) p now) as [[c' o] h] eqn:E; cbn [fst]; ep_simpl; auto.
+  unfold dispatch in E. destruct (k_body p); [|destruct z].
+  - apply recv_spec in E. destruct E as (_ & _ & _ & Pw & _). congruence.
+  - destruct (recv (e_f e) (e_ch e) (k_ns p) (k_nr p) now) as [[c1 o1] h1] eqn:E1.
+    inversion E; subst. apply recv_spec in E1. destruct E1 as (_ & _ & _ & Pw & _). congruence.
+  - destruct (ack_through (e_f e) (e_ch e) (k_nr p) now) as [c1 o1] eqn:E1.
+    inversion E; subst. apply ack_through_spec in E1. destruct E1 as (_ & _ & Pw & _). congruence.
+Qed.
+
+Lemma tick_win W e now : win_ok W e -> win_ok W (fst (ep_tick e now)).
+Proof.
+  intros [O M P]. constructor; [apply tick_ok; exact O| |]; unfold ep_tick;
+    destruct (tick (e_f e) (e_ch e) now) as [[[c' o] d] ret] eqn:E; cbn [fst]; ep_simpl; auto.
+  apply tick_spec in E. destruct E as (_ & _ & Pw & _). congruence.
+Qed.
+
+Lemma submits_win W now rs : forall e, win_ok W e -> win_ok W (ep_submits e rs now).
+Proof. unfold ep_submits. induction rs as [|r rs IH]; intros e H; simpl; auto using submit_win. Qed.
+
+Lemma node_step_win W n ev : win_ok W (n_ep n) -> win_ok W (n_ep (node_step n ev)).
+Proof.
+  intros H. destruct ev as [m now|now]; cbn [node_step n_ep]; [|apply tick_win; exact H].
+  unfold node_dispatch. destruct (n_known n && m_tid_ok m); [|exact H].
+  pose proof (deliver_win false W _ (m_pkt m) now H) as D.
+  destruct (ep_deliver false (n_ep n) (m_pkt m) now) as [e1 ob]. cbn [fst] in D.
+  destruct ob as [| |h o| |]; cbn [n_ep]; auto. destruct h; cbn [n_ep]; auto using submits_win.
+Qed.
+
+Lemma node_run_win W : forall evs n, win_ok W (n_ep n) -> win_ok W (n_ep (node_run n evs)).
+Proof.
+  unfold node_run. induction evs as [|ev r IH]; intros n H; simpl; auto using node_step_win.
+Qed.
+
+(* Once the peer's advertised Receive Window Size has been applied to a channel with at most one
+   message outstanding (LNS: none; LAC: its SCCRQ), then for every later sequence of inbound messages
+   (any type, any handler replies) and Ticks the number of transmitted, unacknowledged messages never
+   exceeds the advertised window (at least 1; 4 if the peer sent no AVP), and the channel's window
+   stays that value. *)
+Lemma window_advertised e adv evs known :
+  1 <= f_maxr (e_f e) -> att_ok (f_maxr (e_f e)) (c_q (e_ch e)) -> count_inflight (c_q (e_ch e)) <= 1 ->
+  let W := Z.max 1 (advertised adv) in
+  let n := node_run (mkN known (apply_peer_window e adv)) evs in
+  count_inflight (c_q (e_ch (n_ep n))) <= W /\ c_pw (e_ch (n_ep n)) = W /\ c_cwnd (e_ch (n_ep n)) <= W.
+Proof.
+  intros Hm Ha Hi W n.
+  assert (Hpw : c_pw (set_peer_window (e_ch e) (advertised adv)) = W).
+  { unfold set_peer_window, W. cbn [c_pw]. destruct (advertised adv <? 1) eqn:E; lia. }
+  assert (Hcw : c_cwnd (set_peer_window (e_ch e) (advertised adv)) <= W).
+  { unfold set_peer_window, W. cbn [c_cwnd].
+    destruct (advertised adv <? 1) eqn:E; destruct (_ <? c_cwnd (e_ch e)) eqn:E2; lia. }
+  assert (H0 : win_ok W (apply_peer_window e adv)).
+  { unfold apply_peer_window. constructor; ep_simpl; auto.
+    constructor; ep_simpl; auto; try lia.
+    rewrite Hpw. change (c_q (set_peer_window (e_ch e) (advertised adv))) with (c_q (e_ch e)). lia. }
+  pose proof (node_run_win W evs (mkN known (apply_peer_window e adv)) H0) as [O M P].
+  fold n in O, M, P. splits; auto.
+  - rewrite <- M. apply (ok_infl _ O).
+  - rewrite <- M. apply (ok_cwnd _ O).
+Qed.
+
+(* the window is really reached: peer advertises 2, acknowledges two of our messages, then sends four
+   requests whose replies it does not acknowledge: exactly 2 replies are outstanding, 2 wait in the queue *)
+Definition win_msgs : list nevent :=
+  let m ns nr rep := NMsg (mkM true (mkK (Some 1) 0 ns nr) rep false) 0 in
+  [ m 0 0 [(1, 0)]; m 1 1 []; m 2 1 [(2, 0)]; m 3 2 [(3, 0)];
+    m 4 3 [(4, 0)]; m 5 3 [(5, 0)]; m 6 3 [(6, 0)]; m 7 3 [(7, 0)] ].
+Lemma window_reached :
+  let n := node_run (mkN true (apply_peer_window (new_endpoint 0 0 0 0 16 0 0) (Some 2))) win_msgs in
+  count_inflight (c_q (e_ch (n_ep n))) = 2 /\ length (c_q (e_ch (n_ep n))) = 4%nat /\
+  c_pw (e_ch (n_ep n)) = 2.
+Proof. vm_compute. splits; reflexivity. Qed.
